@@ -75,3 +75,10 @@ add("C16",
     "Trusted: CrossHair/z3; metadata enters as md objects (no XML parsing except signed_md and roundtrip fixtures); HTTP fetch and verification are stubs; clock model.",
     "DESIGN.md 3/C16")
 NOT_APPLICABLE.pop("C16", None)
+
+add("C13",
+    "CrossHair symbolic execution of validate.valid_instance (and class verify overrides) per schema class: one declared constraint violated at a time, selected by symbolic indices, inside generated valid instances at the root and under each parent",
+    "For every class with declared constraints (156 core classes + every class with an enumerated type in quick; all schema modules in thorough) and every (constraint, removal mode, bad value, nesting parent, cardinality excess) the violated instance is rejected and the unviolated one accepted - confirmed over all paths per class.",
+    "Trusted: CrossHair/z3; instance generator; bad-value catalogue; 'declared bounds' = c_cardinality; classes whose generated instance is not accepted are excluded by name in the evidence.",
+    "DESIGN.md 3/C13")
+NOT_APPLICABLE.pop("C13", None)
